@@ -20,11 +20,12 @@ Theorem c09_closure : forall c (P : td_state -> Prop),
 Proof. exact td_closure. Qed.
 Print Assumptions c09_closure.
 
-(* (a) all_terminate.  In every family (3 phases x 5 injections x 3 blocked callers, and the families with a
-   further Close() racing with everything) a reachable state without an enabled step has every goroutine
+(* (a) all_terminate.  In every family (3 phases x 5 injections x 3 blocked callers, the families with a
+   further Close() racing with everything, and the handshake families in which T1 may exhaust its
+   retransmissions) a reachable state without an enabled step has every goroutine
    automaton at its end and every caller returned: no deadlocked configuration is reachable, before or after
    the injection. *)
-Theorem c09_all_terminate : forall c s, In c (td_families ++ td_families_close2) -> td_reach c s ->
+Theorem c09_all_terminate : forall c s, In c td_all_families -> td_reach c s ->
   td_steps c s = [] -> td_done s = true.
 Proof. exact td_all_terminate. Qed.
 Print Assumptions c09_all_terminate.
@@ -45,7 +46,7 @@ Print Assumptions c09_done_means.
    the injection the finished state is reached by steps of the association's goroutines, its timers, the
    callers and inbound packets only.  Under a scheduler that does not starve an enabled goroutine for ever
    this is termination; fairness itself is not modelled. *)
-Theorem c09_progress : forall c s, In c (td_families ++ td_families_close2) -> td_reach c s ->
+Theorem c09_progress : forall c s, In c td_all_families -> td_reach c s ->
   exists t, td_star c s t /\ td_done t = true.
 Proof. exact td_progress. Qed.
 Print Assumptions c09_progress.
@@ -95,7 +96,7 @@ Print Assumptions c09_channels_closed_once.
 
 (* the final states the comparator (ocaml/cmp_teardown.ml) reads from the extracted model cover every
    reachable maximal run end *)
-Theorem c09_outcomes_complete : forall c s, In c (td_families ++ td_families_close2) -> td_reach c s ->
+Theorem c09_outcomes_complete : forall c s, In c td_all_families -> td_reach c s ->
   td_steps c s = [] -> In (td_outcome_of s) (td_final_outcomes c).
 Proof. exact td_outcomes_complete. Qed.
 Print Assumptions c09_outcomes_complete.
@@ -108,33 +109,25 @@ Theorem c09_shutdown_result : forall c s, In c td_all_families -> td_reach c s -
 Proof. exact td_shutdown_result. Qed.
 Print Assumptions c09_shutdown_result.
 
-(* T1 exhaustion during the handshake.  Before fix aeda016 the faithful model refuted (a): the connect call
-   returned the handshake error and left the association running, a late COOKIE-ACK then blocked the read loop
-   for ever in completeHandshake under a.lock (reproduced on the implementation, D27, notes/C09.md).  The
-   connect call now closes the association; with a Close() or a failing conn.Read as the injection every
-   maximal run end is finished and a finished state stays reachable. *)
-Theorem c09_t1_exhaustion_terminates : forall c s, In c td_families_t1_ok -> td_reach c s ->
-  (td_steps c s = [] -> td_done s = true) /\ (exists t, td_star c s t /\ td_done t = true).
-Proof. exact td_t1_ok. Qed.
-Print Assumptions c09_t1_exhaustion_terminates.
+(* T1 exhaustion during the handshake is part of td_all_families: c09_all_terminate / c09_progress hold for
+   Close, Abort, conn.Read failing, conn.Write failing and an inbound ABORT.  History (notes/C09.md): the
+   faithful model refuted (a) twice, both times reproduced on the implementation and repaired in /repo:
+   D27 (aeda016: the connect call closes the association when the handshake result is an error) and D31
+   (c7c80cb: the failure callback of T1 re-checks the state under a.lock).  The schedule of D31 — callback
+   fired, handshake completed by the read loop, connect call returned the association, callback takes the lock,
+   Abort() called — now leads to a state in which the callback has returned without holding the lock, Abort()
+   can take its next step, and a finished state is reachable. *)
+Example c09_t1_callback_race_now_harmless :
+  exists s, td_reach td_cfg_t1_abort s /\
+            td_follow td_cfg_t1_abort (td_init td_cfg_t1_abort) td_old_race_schedule = Some s /\
+            td_cw s = TdCwOk /\ td_tf s = TdTfDone /\ td_lk s = false /\ td_ab s = TdAbFlag /\
+            td_abort_caller s <> [] /\ (exists t, td_star td_cfg_t1_abort s t /\ td_done t = true).
+Proof. exact td_old_race_harmless. Qed.
+Print Assumptions c09_t1_callback_race_now_harmless.
 
-(* What the faithful model still refutes is a race of a few instructions: the failure callback of T1 has
-   fired (rtxTimer.timeout decided under the timer's mutex) and waits for a.lock while the read loop handles
-   the COOKIE-ACK and hands the association to the connect call; the callback's completeHandshake(err) then
-   finds no receiver and no closed channel and blocks under a.lock on an established association: Abort()
-   never returns, a conn.Write failure is never noticed.  Not reproduced on the implementation (under synctest
-   a timer fires only while every goroutine is blocked). *)
-Theorem c09_t1_callback_race_abort_never_returns :
-  exists c s, In c td_families_t1 /\ td_reach c s /\ td_steps c s = [] /\ td_done s = false /\
-              td_ab s = TdAbFlag /\ td_tf s = TdTfBlocked /\ td_cw s = TdCwOk /\ td_st s = TdStEst.
-Proof. exact td_t1_stuck_abort. Qed.
-Print Assumptions c09_t1_callback_race_abort_never_returns.
-
-Theorem c09_t1_callback_race_write_failure_unnoticed :
-  exists c s, In c td_families_t1 /\ td_reach c s /\ td_injected c s = true /\ td_steps c s = [] /\
-              td_done s = false /\ td_tf s = TdTfBlocked /\ td_cw s = TdCwOk.
-Proof. exact td_t1_stuck_wfail. Qed.
-Print Assumptions c09_t1_callback_race_write_failure_unnoticed.
+Theorem c09_t1_families_are_covered : forall c, In c td_families_t1 -> In c td_all_families.
+Proof. intros c H. unfold td_all_families. apply in_or_app. right. apply in_or_app. right. exact H. Qed.
+Print Assumptions c09_t1_families_are_covered.
 
 (* non-vacuity: a concrete run — established, a reader blocked, Close() injected — reaches a finished state
    in which the Close() has returned and the reader got the read error *)
